@@ -102,6 +102,36 @@ CLAIMS["C05"] = dict(
         "on every .gram file and the Python parser on test sources and invalid snippets in both passes.",
    design="6/C05", technique="Coq proof (invariant by induction on interpreter fuel) + per-invocation trace correspondence with real parsers",
    note="Hypothesis: action results are truthy. Known findings: explicit falsy action after consuming; four invalid_ rules of python.gram in error mode.")
+CLAIMS["C04"] = dict(
+   text="K-run correspondence under all four configurations {quiet,verbose} x {cache on, cache off} (outcome, value, position, "
+        "tokens fetched, full event trace of model vs real parser) plus, on the implementation, equality of outcome/value/"
+        "tokens consumed/error position across the four configurations over grammars x exhaustively enumerated inputs. Coq "
+        "(Props/C04.v): the full verbose statement is REFUTED by a computed witness (showpeek fetches a token: recorded "
+        "finding); proved for all modules/inputs/states: a cache hit replays exactly the recorded result and end position, "
+        "and every cache entry reachable in any run records an end position consistent with its result (from the C05 invariant).",
+   design="6/C04", technique="Coq refutation witness + cache-consistency invariant proof + four-configuration trace correspondence",
+   note="Partial: the general equalities (cache on = cache off; verbose = quiet up to the fetched count) are not yet theorems; "
+        "they are checked by the four-configuration sweep.")
+CLAIMS["C11"] = dict(
+   text="Coq theorems (Props/C11.v) over the runtime model, for every module: NAME matches a token iff kind NAME and text not "
+        "in KEYWORDS; SOFT_KEYWORD iff kind NAME and text in SOFT_KEYWORDS; a quoted literal that is not also a token-kind "
+        "name matches iff the texts are equal; keyword tables are sorted sets of what was collected; the kind/literal "
+        "conflation of expect() is REFUTED by computed witnesses (two recorded findings). Tie: K-gen/K-run; on the "
+        "implementation: hard/soft keywords hidden at 15 syntactic positions (also with both quote styles) must appear in the "
+        "tables and NAME/SOFT_KEYWORD must accept/reject accordingly.",
+   design="6/C11", technique="Coq theorems on the primitive tests + refutation witnesses + positional keyword sweep with K-run correspondence",
+   note="Partial: that the generator collects EVERY literal at every position (work-list completeness) is validated by the "
+        "positional sweep and K-gen, not yet proved.")
+CLAIMS["C12"] = dict(
+   text="Coq theorems (Props/C12.v): (1) for every module, input, configuration, fuel and state, every invocation that returns "
+        "leaves call_invalid_rules as it found it (without_invalid methods clear it for their body and restore it on match, "
+        "failure and cut); (2) with the flag off a guarded alternative is exactly skipped; (3) under decidable conditions on "
+        "the InvalidNodeVisitor table extracted from the source each run (re-proved as instance lemmas), the guard is emitted "
+        "exactly for alternatives mentioning an invalid* name at ANY nesting depth. Tie: K-gen/K-run. On the implementation: "
+        "parser(G) with the flag off equals parser(G minus those alternatives) on enumerated inputs for 14 placements, no "
+        "invalid_ rule is invoked with the flag off, and the flag is monitored at every call in both modes.",
+   design="6/C12", technique="Coq proofs (flag preservation by induction on fuel; detector exactness via table simulation) + strip-equivalence sweep",
+   note="The equivalence with the stripped grammar as a whole-program theorem is not stated; it is checked on enumerated inputs.")
 NOT_YET = {}
 NOT_APPLICABLE = {
  "C06": "equates the generated parser with CPython's own C parser/ast.parse, for which no executable model exists "
